@@ -1,10 +1,14 @@
 import FitModel.DecoderApi
 import FitModel.DecoderApiSpec
 import FitModel.Generated.DecApiStdFactory
+import FitModel.DecoderApiListener
+import FitModel.Raw
 import Driver.Util
 import Driver.ValCodec
+import Driver.Raw
 -- @family decapi Drv.DecApi.hDecApi
 -- @family dechist Drv.DecApi.hDecHist
+-- @family decentry Drv.DecApi.hDecEntry
 /-!
 Driver of the families `decapi` / `dechist` (see harness/fam_decapi.go for the line syntax): runs
 `Fit.DecApi.run` — the definitions the theorems of C03 / C07 are about — on the operation line and prints the
@@ -127,7 +131,21 @@ def stdFactory : Factory :=
 def parseFactory (s : String) : Option Factory :=
   if s == "-" then some [] else if s == "std" then some stdFactory else (s.splitOn ";").mapM parseFacEntry
 
+/-- `decx:0` (the harness cancels the context at the first `Read` of the call, on a reader that delivers one byte per
+`Read`, so that every request of the decoder reaches it) is written `.decodeCtxAt 0` by the parser and resolved against
+the model's state by `resolveOps`: with the header of the sequence still to be read the first read is the header's and
+the first check after it sees the cancellation (`k = 0`); with the header already read (peeks, `Next`) the first read
+lies inside the first record and the check after that record is the first to see it (`k = 1`). -/
+def resolveOps : Api → List Op → List Op
+  | _, [] => []
+  | a, op :: ops =>
+    let op' := match op with
+      | .decodeCtxAt 0 => .decodeCtxAt (if a.d.q.hdrDone then 1 else 0)
+      | o => o
+    op' :: resolveOps (step a op').1 ops
+
 def parseOp (o : Opts) (streams : List (List Nat)) (s : String) : Option Op :=
+  if let some k := (stripPrefix? s "decx:").bind String.toNat? then some (.decodeCtxAt k) else
   match s with
   | "dec" => some .decode
   | "decx" => some (.decodeCtx false)
@@ -164,7 +182,7 @@ def parseLine (args : List String) : Option Line := do
   let o ← parseOpts (← optS) fac
   let streams := (← b) :: rs.toList
   let ops ← ((← opsS).splitOn ",").mapM (parseOp o streams)
-  pure ⟨verbose, o, ops, streams⟩
+  pure ⟨verbose, o, resolveOps (Api.fresh o (streams.headD [])) ops, streams⟩
 
 /-- tokens up to and including the first panic / hang -/
 def cut : List (Op × Out × List Event) → List (Op × Out × List Event)
@@ -191,7 +209,8 @@ def fakeSuccess (l : Line) (toks : List String) : Option Nat :=
   let spec := specRun (Spec.fresh l.o (l.streams.headD [])) l.ops
   (((l.ops.zip spec).zip toks).zipIdx.find? (fun (((op, sp), t), _) =>
     match op, sp with
-    | .decode, some (.err _, _) | .decodeCtx _, some (.err _, _) | .discard, some (.err _, _) => t.startsWith "ok"
+    | .decode, some (.err _, _) | .decodeCtx _, some (.err _, _) | .decodeCtxAt _, some (.err _, _) | .discard, some (.err _, _) =>
+      t.startsWith "ok"
     | _, _ => false)).map (·.2)
 
 def propC03 (l : Line) (impl : String) : String :=
@@ -249,6 +268,94 @@ def handler (c07 : Bool) : Handler := fun r =>
     | .spec => "n/a"
     | .prop => if c07 then propC07 l r.impl else propC03 l r.impl
     | .kf => if c07 then kfClasses l else "-"
+
+/-! ### family `decentry`: raw decoding and the typed-file listener on the same streams (syntax: harness/fam_decapi_entry.go) -/
+
+inductive Entry
+  | raw (failAt : Option Nat)
+  | lis (n : Nat) (fs : String)
+
+def parseEntry (s : String) : Option Entry :=
+  match s.splitOn ":" with
+  | ["raw", "-"] => some (.raw none)
+  | ["raw", j] => j.toNat?.map fun j => .raw (some j)
+  | ["lis", n, fs] => if fs == "all" ∨ fs == "act" ∨ fs == "none" then n.toNat?.map fun n => .lis n fs else none
+  | _ => none
+
+/-- the file sets of the line: which `file_id.type` values have a file constructor -/
+def listedBy (fs : String) (t : Nat) : Bool :=
+  if fs == "all" then (Fit.FileDef.fileTypeOf t).isSome else if fs == "act" then t == 4 else false
+
+def showFileType : Option Nat → String
+  | none => "nil"
+  | some t => match Fit.FileDef.fileTypeOf t with
+    | some T => T.gotype
+    | none => "?"
+
+/-- `for dec.Next() { _, err := dec.Decode(); file := lis.File() }` on the decoder-API model, the listener's file chosen
+by `listenerFile` from the messages handed to the message listener during that `Decode` -/
+def lisRun (fs : String) : Nat → Api → Option Nat → List String → List String
+  | 0, _, _, acc => acc ++ ["runaway"]
+  | fuel + 1, a, prev, acc =>
+    let (a1, o1, _) := step a .next
+    match o1 with
+    | .bool true =>
+      let (a2, o2, evs) := step a1 .decode
+      let msgs := evs.filterMap fun | .mesg m => some m | .mesgDef _ => none
+      let cur := listenerFile (listedBy fs) prev msgs
+      let file := showFileType cur
+      match o2 with
+      | .fit _ => lisRun fs fuel a2 cur (acc ++ ["ok:" ++ file])
+      | .err e => acc ++ [s!"err:{errName e}:{file}"]
+      | .panic => acc ++ ["panic"]
+      | .hang => acc ++ ["hang"]
+      | _ => acc ++ ["?"]
+    | .bool false => acc ++ ["end"]
+    | .panic => acc ++ ["panic"]
+    | .hang => acc ++ ["hang"]
+    | _ => acc ++ ["?"]
+
+def parseEntryLine (args : List String) : Option (Entry × Opts × List Nat) := do
+  let mut e : Option String := none
+  let mut optS : Option String := none
+  let mut facS : Option String := none
+  let mut b : Option (List Nat) := none
+  for a in args do
+    if let some v := stripPrefix? a "e:" then e := some v
+    else if let some v := stripPrefix? a "o:" then optS := some v
+    else if let some v := stripPrefix? a "f:" then facS := some v
+    else if let some v := stripPrefix? a "b:" then
+      if b.isSome then none
+      b := some (← unhex v)
+    else none
+  let fac ← parseFactory (← facS)
+  let o ← parseOpts (← optS) fac
+  pure (← parseEntry (← e), o, ← b)
+
+def entryAnswer : Entry → Opts → List Nat → String
+  | .raw failAt, _, bytes =>
+    let (o, n) := Fit.ReadBuffer.runFullN (Fit.Raw.decode failAt (bytes.length + 1) {}) (Fit.ReadBuffer.contiguous bytes) 0
+    Drv.RawD.showRaw o n
+  | .lis _ fs, o, bytes =>
+    " ".intercalate (lisRun fs (bytes.length + 2) (Api.fresh { o with ml := true, dl := false } bytes) none [])
+
+/-- C03 on the implementation's answer: a result or an error, never a panic, never a hang -/
+def propEntry (impl : String) : String :=
+  let toks := impl.splitOn " "
+  if toks.any (fun t => t == "panic" || t.startsWith "panic(") then "fail:panic"
+  else if toks.contains "hang" then "fail:hang"
+  else if toks.any (fun t => t.startsWith "mismatch" || t == "runaway" || t == "err:panic") then "fail:" ++ (toks.headD "")
+  else "ok"
+
+def hDecEntry : Handler := fun r =>
+  match parseEntryLine r.args with
+  | none => if r.mode == .model then "bad-op" else if r.mode == .kf then "-" else "n/a"
+  | some (e, o, b) =>
+    match r.mode with
+    | .model => entryAnswer e o b
+    | .spec => "n/a"
+    | .prop => propEntry r.impl
+    | .kf => "-"
 
 def hDecApi : Handler := handler false
 def hDecHist : Handler := handler true
